@@ -448,6 +448,106 @@ func VerifH14() {
 }
 
 // ---------------------------------------------------------------------------
+// H13e — COPY-in started through the extended protocol (C13): Parse, Bind with
+// any admissible result-format codes (none, one, one per column; text or
+// binary), Execute, then CopyData messages, CopyDone or CopyFail, and Sync.
+// The CopyInResponse announces the format the handler requested, overall and
+// for each declared column, whatever result formats the Bind carried; payloads
+// arrive in order; the cycle ends with one CommandComplete or one ErrorResponse
+// and one ReadyForQuery for the Sync.
+// ---------------------------------------------------------------------------
+func VerifH13e() {
+	nc := 1 + vChoose(2)
+	format := FormatCode(vChoose(2))
+	rf := vFormats(nc)
+	K := vChoose(vParam("K", 2) + 1)
+	fail := nondetBool()
+	var payloads [][]byte
+	var got [][]byte
+	var readErr error
+	stmt := func(ctx context.Context, dw DataWriter, params []Parameter) error {
+		cr, err := dw.CopyIn(format)
+		if err != nil {
+			return err
+		}
+		for k := 0; k < 6; k++ {
+			err := cr.Read()
+			if err == io.EOF {
+				return dw.Complete("COPY")
+			}
+			if err != nil {
+				readErr = err
+				return err
+			}
+			got = append(got, append([]byte{}, cr.Msg...))
+		}
+		return errVerifExec
+	}
+	parse := func(ctx context.Context, query string) (PreparedStatements, error) {
+		return Prepared(NewStatement(stmt, WithColumns(vTextColumns(nc)))), nil
+	}
+	input := vCat(vMsgBytes('P', vCat(vCStr(nil), vCStr([]byte("c")), vU16(0))),
+		vMsgBytes('B', vBindBody(nil, nil, rf)),
+		vMsgBytes('E', vCat(vCStr(nil), vU32(0))))
+	for i := 0; i < K; i++ {
+		b := nondetBytes(vChoose(2))
+		payloads = append(payloads, b)
+		input = vCat(input, vMsgBytes('d', b))
+	}
+	if fail {
+		input = vCat(input, vMsgBytes('f', vCStr([]byte("r"))))
+	} else {
+		input = vCat(input, vMsgBytes('c', nil))
+	}
+	input = vCat(input, vMsgBytes('S', nil))
+	srv, err := NewServer(parse, MessageBufferSize(64))
+	vAssert("newserver-ok", err == nil)
+	w := &vWorld{srv: srv}
+	w.conn = vNewConn(input)
+	w.ses, w.rd, w.wr = vSession(srv, w.conn)
+	w.ctx = vCtx(srv)
+	for k := 0; k < 4; k++ {
+		_, serr := w.step()
+		vAssert("connection-stays-up", serr == nil)
+	}
+	vAssert("wire-wellformed", vWireOK(w.conn.out))
+	msgs, _ := vFrames(w.conn.out)
+	types := vTypes(w.conn.out)
+	var g []byte
+	for _, m := range msgs {
+		if m.typ == 'G' {
+			g = m.body
+		}
+	}
+	vAssert("extended-copy-in-response-sent", vCount(types, 'G') == 1 && len(g) == 3+2*nc)
+	vAssert("extended-copy-in-response-format", g[0] == byte(format) && vBE16(g, 1) == nc)
+	for c := 0; c < nc; c++ {
+		vAssert("extended-copy-in-response-column-format", vBE16(g, 3+2*c) == int(format))
+	}
+	differs := false
+	for c := 0; c < nc && len(rf) > 0; c++ {
+		if vFormatFor(rf, c) != format {
+			differs = true
+		}
+	}
+	if differs {
+		vReach("bind-result-formats-differ-from-the-copy-format")
+	}
+	vAssert("extended-payloads-count", len(got) == K)
+	for i := 0; i < K && i < len(got); i++ {
+		vAssert("extended-payloads-in-order-byte-exact", vEqBytes(got[i], payloads[i]))
+	}
+	if fail {
+		vAssert("extended-abort-surfaces-as-error", readErr != nil && readErr != io.EOF)
+		vAssert("extended-abort-one-E-one-Z", types == "12GEZ")
+		vReach("extended-copy-aborted")
+	} else {
+		vAssert("extended-success-cycle", types == "12GCZ")
+		vReach("extended-copy-completed")
+	}
+}
+
+// ---------------------------------------------------------------------------
 // H13d — how a binary COPY ends is decided by the client's protocol message,
 // not by the data (C13/C14): a handler reads rows through the library's
 // binary row reader; the client sends the header, TUPLES one-column tuples and
